@@ -26,8 +26,11 @@ TABLES = {
 TABLES["bob-held-by-another-session"] = [M.UserSpec(None), M.UserSpec("bob", "pw", home="/d", maxconn=1)]
 # a user whose password is the empty string has a password all the same
 TABLES["empty-password"] = [M.UserSpec(None), M.UserSpec("eve", "", home="/d"), M.UserSpec("bob", "pw", home="/home")]
+# a password with non-ASCII characters: look-alikes that differ only there are wrong passwords
+TABLES["unicode-password"] = [M.UserSpec("carol", "pässwörd", home="/d"), M.UserSpec(None)]
 HELD = {"bob-held-by-another-session": "bob"}
-LOGIN = ["USER anonymous", "USER alice", "USER bob", "USER nobody", "USER eve", "USER", "PASS pw", "PASS wrong", "PASS",
+LOGIN = ["USER anonymous", "USER alice", "USER bob", "USER nobody", "USER eve", "USER carol", "USER", "PASS pw", "PASS wrong", "PASS",
+         "PASS pässwörd", "PASS påsswørd", "PASS p?ssw?rd", "PASS password",
          "PASV", "@data", "CWD /d", "RNFR /g", "REST 2"]
 PROBES = ["PWD", "CWD /d", "CDUP", "MKD /new", "RMD /home", "DELE /g", "RNFR /g", "RNTO /h2", "MLST /g", "MLSD /", "LIST /",
           "RETR /g", "STOR /up", "APPE /g", "TYPE I", "PBSZ 0", "PROT P", "PASV", "EPSV", "ABOR", "REST 1", "SYST", "FOO",
